@@ -151,6 +151,13 @@ def selftest(tier):
                 return False
             fn(t[i]["tx"], ks[0])
         return ch
+    def wrs_change(t, i):
+        # decidable only if the message is completed afterwards (the byte count is settled at its final frame)
+        nxt = [e for e in t[i + 1:] if e["e"] in ("CL", "NW", "WM", "WJ", "WP", "XC", "WC")]
+        if not nxt or nxt[0]["e"] != "CL" or nxt[0]["err"]["cls"] != "nil":
+            return False
+        t[i]["ret"] = t[i]["ret"] - 1
+
     # (flush points are free in the envelope: the length or the absence of a NON-final frame of a message that the program
     #  never completes is not decidable, so these two corruptions are applied to completing frames)
     wcases = [
@@ -163,7 +170,7 @@ def selftest(tier):
         ("pool Put dropped", lambda e: _first_tx(e, "PUT"), tx_change("PUT", lambda tx, k: tx.pop(k))),
         ("pool Put of another buffer", lambda e: [k for k in _first_tx(e, "PUT") if e["tx"][k]["buf"] > 0], tx_change("PUT", lambda tx, k: tx[k].__setitem__("buf", tx[k]["buf"] + 7))),
         ("success reported as error", lambda e: e["e"] in ("WM", "WC", "CL") and e["err"]["cls"] == "nil", lambda t, i: t[i].__setitem__("err", {"cls": "other", "id": 9})),
-        ("WRS: fewer bytes taken than reported", lambda e: e["e"] == "WRS" and e["err"]["cls"] == "src" and e["ret"] > 0, lambda t, i: t[i].__setitem__("ret", t[i]["ret"] - 1)),
+        ("WRS: fewer bytes taken than reported", lambda e: e["e"] == "WRS" and e["err"]["cls"] == "src" and e["ret"] > 0, wrs_change),
         ("WJB: unencodable value reported as sent", lambda e: e["e"] == "WJB" and e["err"]["cls"] == "other", lambda t, i: t[i].__setitem__("err", {"cls": "nil", "id": -1})),
         ("payload attributed to another message", lambda e: [k for k in _first_tx(e, "F") if e["tx"][k]["m"] >= 0], tx_change("F", lambda tx, k: tx[k].__setitem__("m", tx[k]["m"] + 50))),
     ]
